@@ -66,14 +66,18 @@ mod capx {
             let mut bump: Bump<Moody2> = Bump::with_size_in($chunk, Moody2);
             let mut line = format!("V {} {} {} {} {} {}", ["bv", "fv", "mv", "rv"][kind as usize], core::mem::size_of::<$t>(), core::mem::align_of::<$t>(), $init, $chunk, $other as u8);
             let mut notes: Vec<String> = vec![];
-            let zero: $t = unsafe { core::mem::zeroed() };
+            // element value: every byte 0x5A (all element types here are plain integers / arrays of them)
+            let zero: $t = unsafe { let mut m = core::mem::MaybeUninit::<$t>::uninit(); core::ptr::write_bytes(m.as_mut_ptr(), 0x5A, 1); m.assume_init() };
+            // foreign allocations made while the vector lives: one byte 0xA5 each, must stay intact and
+            // must never lie inside the capacity the vector reports
+            let mut foreign: Vec<usize> = vec![];
             macro_rules! drive {
                 ($v:ident, $foreign:expr) => {{
                     // the capacity the vector starts with (MutBumpVec: the rest of the chunk)
                     line.push_str(&format!(" {}", $v.capacity()));
                     for (op, refuse) in $ops.iter() {
                         // sometimes something else is allocated in between: the vector is then not the last allocation
-                        if $other && matches!(op, VOp::Push | VOp::ShrinkToFit) { $foreign; }
+                        if $other && matches!(op, VOp::Push | VOp::ShrinkToFit | VOp::ShrinkTo(_) | VOp::Extend(_)) { if let Some(a) = $foreign { foreign.push(a); } }
                         PROGRESS.with(|p| *p.borrow_mut() = (line.clone(), format!("{:?}", op)));
                         // the fixed end of the buffer: its start, or for the rev vector its end
                         let anchor = |p: usize, len: usize| if rev { p + len * core::mem::size_of::<$t>() } else { p };
@@ -107,6 +111,14 @@ mod capx {
                         }
                         if fixed && (cap1 != cap0 || moved == 1) { notes.push(format!("capacity: a fixed vector changed its buffer on {nm}({arg})")); }
                         if let VOp::ShrinkTo(m) = *op { if cap1 < m.min(cap0) || cap1 > cap0 { notes.push(format!("capacity: shrink_to({m}) took the capacity from {cap0} to {cap1}")); } }
+                        if cap1 > 0 {
+                            let lo = if rev { anchor($v.as_ptr() as usize, $v.len()) - cap1 * es } else { $v.as_ptr() as usize };
+                            let hi = lo + cap1 * es;
+                            for a in &foreign {
+                                if lo <= *a && *a < hi { notes.push(format!("capacity: after {nm}({arg}) the reported capacity [{lo:#x}, {hi:#x}) covers a neighbouring allocation at {a:#x}")); }
+                                if unsafe { *(*a as *const u8) } != 0xA5 { notes.push(format!("capacity: {nm}({arg}) overwrote a neighbouring allocation at {a:#x}")); }
+                            }
+                        }
                         if matches!(op, VOp::ShrinkToFit) && cap1 > cap0 { notes.push(format!("capacity: shrink_to_fit raised the capacity from {cap0} to {cap1}")); }
                     }
                 }};
@@ -121,8 +133,8 @@ mod capx {
                     VOp::Truncate(k) => { $vv.truncate(k); (true, $vv.len()) }
                     _ => (true, $vv.len()),
                 } }}; }
-                if rev { let mut v: MutBumpVecRev<$t, &mut Bump<Moody2>> = MutBumpVecRev::with_capacity_in($init, &mut bump); drive!(v, ()); }
-                else { let mut v: MutBumpVec<$t, &mut Bump<Moody2>> = MutBumpVec::with_capacity_in($init, &mut bump); drive!(v, ()); }
+                if rev { let mut v: MutBumpVecRev<$t, &mut Bump<Moody2>> = MutBumpVecRev::with_capacity_in($init, &mut bump); drive!(v, None::<usize>); }
+                else { let mut v: MutBumpVec<$t, &mut Bump<Moody2>> = MutBumpVec::with_capacity_in($init, &mut bump); drive!(v, None::<usize>); }
             } else if fixed {
                 let mut v: FixedBumpVec<$t> = FixedBumpVec::with_capacity_in($init, &bump);
                 macro_rules! drive_op { ($vv:ident, $op:expr) => {{ match *$op {
@@ -132,7 +144,7 @@ mod capx {
                     VOp::Truncate(k) => { $vv.truncate(k); (true, $vv.len()) }
                     _ => (true, $vv.len()),
                 } }}; }
-                drive!(v, { bump.alloc(0u8); });
+                drive!(v, Some(bump.alloc(0xA5u8).into_raw().as_ptr() as usize));
             } else {
                 let mut v: BumpVec<$t, &Bump<Moody2>> = BumpVec::with_capacity_in($init, &bump);
                 macro_rules! drive_op { ($vv:ident, $op:expr) => {{ match *$op {
@@ -145,7 +157,7 @@ mod capx {
                     VOp::ShrinkToFit => { $vv.shrink_to_fit(); (true, $vv.len()) }
                     VOp::ShrinkTo(m) => { $vv.shrink_to(m); (true, $vv.len()) }
                 } }}; }
-                drive!(v, { bump.alloc(0u8); });
+                drive!(v, Some(bump.alloc(0xA5u8).into_raw().as_ptr() as usize));
             }
             (notes, line)
         }};
@@ -204,6 +216,7 @@ mod capx {
         let head: Vec<&str> = fields.next()?.split(' ').collect();
         if head.len() < 6 { return None; }
         let kind: u8 = match head[0] { "fv" => 1, "mv" => 2, "rv" => 3, _ => 0 };
+        if head[1] == "0" { return zst_replay(kind, fields); }
         let ty = match (head[1], head[2]) { ("1", _) => 0, ("4", _) => 1, ("8", _) => 2, ("24", _) => 3, _ => 4 };
         let init: usize = head[3].parse().ok()?;
         let chunk: usize = head[4].parse().ok()?;
@@ -218,5 +231,122 @@ mod capx {
             ops.push((op, p[2] == "1"));
         }
         Some(run_history(ty, kind, init, &ops, chunk, other))
+    }
+
+    // ---------------------------------------------------------------- zero-sized elements
+    // A vector of () reports capacity usize::MAX and never asks the allocator: it behaves like a
+    // fixed vector of that capacity.  Lengths near usize::MAX are reached in one step by extending
+    // from a slice of units, so that `len + n` overflows in the operations that follow.
+    fn units(n: usize) -> &'static [()] { unsafe { core::slice::from_raw_parts(NonNull::<()>::dangling().as_ptr(), n) } }
+
+    #[derive(Clone, Copy, Debug)]
+    pub enum ZOp { Push, Extend(usize), ExtendClone(usize), WithinCopy(usize), WithinClone(usize), Reserve(usize), ReserveExact(usize), Pop, Truncate(usize) }
+
+    fn zname(op: &ZOp) -> (&'static str, usize) {
+        match *op { ZOp::Push => ("push", 0), ZOp::Extend(n) => ("extend", n), ZOp::ExtendClone(n) => ("extend_clone", n), ZOp::WithinCopy(n) => ("within_copy", n),
+                    ZOp::WithinClone(n) => ("within_clone", n), ZOp::Reserve(n) => ("reserve", n), ZOp::ReserveExact(n) => ("reserve_exact", n), ZOp::Pop => ("pop", 0), ZOp::Truncate(k) => ("truncate", k) }
+    }
+
+    macro_rules! zst_drive {
+        ($v:ident, $res:ident, $resx:ident, $ops:expr, $line:ident, $notes:ident) => {{
+            $line.push_str(&format!(" {}", $v.capacity()));
+            for op in $ops.iter() {
+                PROGRESS.with(|p| *p.borrow_mut() = ($line.clone(), format!("{:?}", op)));
+                let (len0, cap0) = ($v.len(), $v.capacity());
+                let ok = match *op {
+                    ZOp::Push => $v.try_push(()).is_ok(),
+                    ZOp::Extend(n) => $v.try_extend_from_slice_copy(units(n)).is_ok(),
+                    ZOp::ExtendClone(n) => $v.try_extend_from_slice_clone(units(n)).is_ok(),
+                    ZOp::WithinCopy(n) => $v.try_extend_from_within_copy(0..n.min(len0)).is_ok(),
+                    ZOp::WithinClone(n) => $v.try_extend_from_within_clone(0..n.min(len0)).is_ok(),
+                    ZOp::Reserve(n) => $v.$res(n).is_ok(),
+                    ZOp::ReserveExact(n) => $v.$resx(n).is_ok(),
+                    ZOp::Pop => { $v.pop(); true }
+                    ZOp::Truncate(k) => { $v.truncate(k); true }
+                };
+                let (nm, arg) = zname(op);
+                let arg = match *op { ZOp::WithinCopy(n) | ZOp::WithinClone(n) => n.min(len0), _ => arg };
+                let (len1, cap1) = ($v.len(), $v.capacity());
+                $line.push_str(&format!(";{nm},{arg},0,{},{len1},{cap1},0", ok as u8));
+                let needs = match *op { ZOp::Push => Some(1), ZOp::Extend(n) | ZOp::ExtendClone(n) | ZOp::Reserve(n) | ZOp::ReserveExact(n) => Some(n), ZOp::WithinCopy(n) | ZOp::WithinClone(n) => Some(n.min(len0)), _ => None };
+                if cap1 != cap0 { $notes.push(format!("capacity: the capacity of a vector of zero-sized elements changed from {cap0} to {cap1} on {nm}({arg})")); }
+                if let Some(n) = needs {
+                    let fits = n <= cap0 - len0;
+                    if fits != ok { $notes.push(format!("capacity: {nm}({arg}) on a vector of {len0} zero-sized elements (capacity {cap0}) returned {}", if ok { "Ok although the length would overflow" } else { "Err although it fits" })); }
+                    let grows = !matches!(op, ZOp::Reserve(_) | ZOp::ReserveExact(_));
+                    if ok && grows && len1 != len0.wrapping_add(n) { $notes.push(format!("capacity: {nm}({arg}) took the length from {len0} to {len1}")); }
+                    if (!ok || !grows) && len1 != len0 { $notes.push(format!("capacity: a failed {nm}({arg}) changed the length from {len0} to {len1}")); }
+                }
+            }
+        }};
+    }
+    fn gen_zops(r: &mut Rng, kind: u8) -> Vec<ZOp> {
+        let n = r.range(2, 14) as usize;
+        let mut len_guess: usize = 0;
+        (0..n).map(|i| {
+            let amount = |r: &mut Rng, len: usize| -> usize { match r.below(8) { 0 => 1, 1 => 2, 2 => 5, 3 => usize::MAX - len, 4 => (usize::MAX - len).wrapping_add(1), 5 => usize::MAX - 1, 6 => (isize::MAX as usize), _ => r.range(0, 9) as usize } };
+            let small = |a: usize| if a > 64 { a % 64 + 1 } else { a };
+            let op = loop {
+                let op = if i == 0 && r.coin(2, 3) { ZOp::Extend(usize::MAX - r.below(4) as usize) } else { match r.below(12) {
+                    // the clone variants loop once per element: keep their counts small (an overflow only needs
+                    // a length near usize::MAX, which the copy variants reach in one step)
+                    0 | 1 => ZOp::Push, 2 => ZOp::Extend(amount(r, len_guess)), 3 => ZOp::ExtendClone(small(amount(r, len_guess))),
+                    4 | 5 => ZOp::WithinCopy(amount(r, len_guess)), 6 | 7 => ZOp::WithinClone(small(amount(r, len_guess))),
+                    8 => ZOp::Reserve(amount(r, len_guess)), 9 => ZOp::ReserveExact(amount(r, len_guess)), 10 => ZOp::Pop, _ => ZOp::Truncate(r.below(4) as usize) } };
+                // cloning 2^63 units one by one would take forever: keep the clone loops short
+                break op;
+            };
+            // track the length the history will have (to aim at the overflow boundary)
+            len_guess = match op {
+                ZOp::Push => if len_guess < usize::MAX { len_guess + 1 } else { len_guess },
+                ZOp::Extend(n) | ZOp::ExtendClone(n) => if n <= usize::MAX - len_guess { len_guess + n } else { len_guess },
+                ZOp::WithinCopy(n) | ZOp::WithinClone(n) => { let n = n.min(len_guess); if n <= usize::MAX - len_guess { len_guess + n } else { len_guess } }
+                ZOp::Pop => len_guess.saturating_sub(1), ZOp::Truncate(k) => len_guess.min(k), _ => len_guess };
+            op
+        }).collect()
+    }
+
+    fn run_zst(kind: u8, ops: &[ZOp]) -> (Vec<String>, String) {
+        PROGRESS.with(|p| *p.borrow_mut() = (String::new(), "new".into()));
+        let r = std::panic::catch_unwind(std::panic::AssertUnwindSafe(|| {
+            let mut bump: Bump<Moody2> = Bump::with_size_in(512, Moody2);
+            let mut line = format!("V {} 0 1 0 512 0", ["bv", "fv", "mv", "rv"][kind as usize]);
+            let mut notes: Vec<String> = vec![];
+            match kind {
+                0 => { let mut v: BumpVec<(), &Bump<Moody2>> = BumpVec::new_in(&bump); zst_drive!(v, try_reserve, try_reserve_exact, ops, line, notes); }
+                1 => { let mut v: FixedBumpVec<()> = FixedBumpVec::with_capacity_in(0, &bump); zst_drive!(v, try_reserve, try_reserve, ops, line, notes); }
+                2 => { let mut v: MutBumpVec<(), &mut Bump<Moody2>> = MutBumpVec::new_in(&mut bump); zst_drive!(v, try_reserve, try_reserve_exact, ops, line, notes); }
+                _ => { let mut v: MutBumpVecRev<(), &mut Bump<Moody2>> = MutBumpVecRev::new_in(&mut bump); zst_drive!(v, try_reserve, try_reserve_exact, ops, line, notes); }
+            }
+            (notes, line)
+        }));
+        match r {
+            Ok(x) => x,
+            Err(_) => {
+                let (line, op) = PROGRESS.with(|p| p.borrow().clone());
+                (vec![format!("capacity: the crate panicked in a try_ / non-failing operation ({op}) on a vector of zero-sized elements")], if line.is_empty() { format!("V {} 0 1 0 512 0 0", ["bv", "fv", "mv", "rv"][kind as usize]) } else { line })
+            }
+        }
+    }
+
+    pub fn zst_history(r: &mut Rng, announce: &mut dyn FnMut(&str)) -> (Vec<String>, String) {
+        let kind = r.below(4) as u8;
+        let ops = gen_zops(r, kind);
+        let mut l = format!("VB {} 0 1 0 512 0 0", ["bv", "fv", "mv", "rv"][kind as usize]);
+        for op in &ops { let (nm, arg) = zname(op); l.push_str(&format!(";{nm},{arg},0")); }
+        announce(&l);
+        run_zst(kind, &ops)
+    }
+
+    fn zst_replay(kind: u8, fields: std::str::Split<'_, char>) -> Option<(Vec<String>, String)> {
+        let mut ops = vec![];
+        for f in fields {
+            let p: Vec<&str> = f.split(',').collect();
+            if p.len() < 2 { continue; }
+            let a: usize = p[1].parse().ok()?;
+            ops.push(match p[0] { "push" => ZOp::Push, "extend" => ZOp::Extend(a), "extend_clone" => ZOp::ExtendClone(a), "within_copy" => ZOp::WithinCopy(a), "within_clone" => ZOp::WithinClone(a),
+                                  "reserve" => ZOp::Reserve(a), "reserve_exact" => ZOp::ReserveExact(a), "pop" => ZOp::Pop, "truncate" => ZOp::Truncate(a), _ => return None });
+        }
+        Some(run_zst(kind, &ops))
     }
 }
